@@ -784,6 +784,225 @@ theorem concat_runList {cp : Compiler} {progs : Nat → Prog} {outc : Nat → Li
       rw [ht1, ht12, hemp1, hemp12, this.1, hn]
       exact ⟨by simp, this.2⟩
 
+/-! ### the two ways of running succeed together -/
+
+theorem concat_core_fwd (free : String → Option Rat) (outc : Nat → List Rat) (c1 c2 : List Cmd) (L : List Nat)
+    (st0 st0' st1 st2 : RunSt) (v2 : Nat → Option Val) (tt1 tt2 : List Call)
+    (h0 : Sim (openDeps c1 ++ L) st0 st0')
+    (hr1 : runCircuit free outc st0 c1 = .ok (st1, tt1))
+    (hv2 : ∀ m ∈ openDeps c2, m ∈ L ∧ v2 m = st1.vals m)
+    (hr2 : runCircuit free outc { vals := v2, mpos := st1.mpos } c2 = .ok (st2, tt2)) :
+    ∃ r, runCircuit free outc st0' (c1 ++ c2) = .ok r := by
+  rw [runCircuit_append]
+  have hs1 := runCircuit_sim free outc c1 L st0 st0' h0
+  rw [hr1] at hs1
+  cases h5 : runCircuit free outc st0' c1 with
+  | error err => rw [h5] at hs1; exact hs1.elim
+  | ok r1 =>
+    obtain ⟨st1', tt1'⟩ := r1
+    rw [h5] at hs1
+    obtain ⟨_, hm1, hvs1⟩ := hs1
+    have hs := runCircuit_sim free outc c2 [] { vals := v2, mpos := st1.mpos } st1'
+      ⟨hm1, fun m hm => by
+        have hmo : m ∈ openDeps c2 := by simpa using hm
+        show v2 m = st1'.vals m
+        rw [(hv2 m hmo).2]
+        exact hvs1 m (hv2 m hmo).1⟩
+    rw [hr2] at hs
+    cases h4 : runCircuit free outc st1' c2 with
+    | error err => rw [h4] at hs; exact hs.elim
+    | ok r =>
+      obtain ⟨s2', t2'⟩ := r
+      exact ⟨(s2', tt1' ++ t2'), by simp only [h4]⟩
+
+theorem concat_core_bwd (free : String → Option Rat) (outc : Nat → List Rat) (c1 c2 : List Cmd) (L : List Nat)
+    (st0 st0' : RunSt) (r12 : RunSt × List Call)
+    (h0 : Sim (openDeps c1 ++ L) st0 st0')
+    (hr12 : runCircuit free outc st0' (c1 ++ c2) = .ok r12) :
+    ∃ st1 tt1, runCircuit free outc st0 c1 = .ok (st1, tt1) ∧
+      ∀ v2 : Nat → Option Val, (∀ m ∈ openDeps c2, m ∈ L ∧ v2 m = st1.vals m) →
+        ∃ r2, runCircuit free outc { vals := v2, mpos := st1.mpos } c2 = .ok r2 := by
+  rw [runCircuit_append] at hr12
+  have hs1 := runCircuit_sim free outc c1 L st0 st0' h0
+  cases h5 : runCircuit free outc st0' c1 with
+  | error err => simp [h5] at hr12
+  | ok r1 =>
+    obtain ⟨st1', tt1'⟩ := r1
+    rw [h5] at hs1
+    simp only [h5] at hr12
+    cases h6 : runCircuit free outc st0 c1 with
+    | error err => rw [h6] at hs1; exact hs1.elim
+    | ok r =>
+      obtain ⟨st1, tt1⟩ := r
+      rw [h6] at hs1
+      obtain ⟨_, hm1, hvs1⟩ := hs1
+      refine ⟨st1, tt1, rfl, fun v2 hv2 => ?_⟩
+      have hs := runCircuit_sim free outc c2 [] { vals := v2, mpos := st1.mpos } st1'
+        ⟨hm1, fun m hm => by
+          have hmo : m ∈ openDeps c2 := by simpa using hm
+          show v2 m = st1'.vals m
+          rw [(hv2 m hmo).2]
+          exact hvs1 m (hv2 m hmo).1⟩
+      cases h4 : runCircuit free outc st1' c2 with
+      | error err => simp [h4] at hr12
+      | ok r2' =>
+        rw [h4] at hs
+        cases h7 : runCircuit free outc { vals := v2, mpos := st1.mpos } c2 with
+        | error err => rw [h7] at hs; exact hs.elim
+        | ok r2 => exact ⟨_, rfl⟩
+
+theorem bindParams_total (names : List String) (free : String → Option Rat) (args : List (String × Rat))
+    (h : ∀ kv ∈ args, kv.1 ∈ names) : ∃ f, bindParams names free args = .ok f := by
+  induction args generalizing free with
+  | nil => exact ⟨free, rfl⟩
+  | cons kv rest ih =>
+    obtain ⟨k, v⟩ := kv
+    simp only [bindParams]
+    have hk : names.contains k = true := by simpa using h (k, v) (List.mem_cons_self ..)
+    rw [hk]
+    exact ih _ (fun kv hkv => h kv (List.mem_cons_of_mem _ hkv))
+
+theorem initStep_ok_iff (e : Eng) (p : Prog) (v : Nat → Option Val) :
+    (∃ r, initStep e p v = .ok r) ↔ (e.prev = none ∨ e.prev = some p.initRegs) := by
+  unfold initStep
+  cases hp : e.prev with
+  | none => simp
+  | some prevRegs =>
+    simp only [reduceCtorEq, Option.some.injEq, false_or]
+    by_cases h : p.initRegs = prevRegs
+    · simp [h]
+    · simp only [h, if_false]
+      constructor
+      · rintro ⟨r, hr⟩; cases hr
+      · intro h'; exact absurd h'.symm h
+
+theorem runList_one_of {cp : Compiler} {progs : Nat → Prog} {outc : Nat → List Rat} {args : List (String × Rat)}
+    {e ea : Eng} {w wa : World} {i : Nat} {ta : List Call}
+    (h : runOne cp progs outc args e w i = .ok (ea, wa, ta)) :
+    runList cp progs outc args e w [i] = .ok (ea, wa, ta) := by
+  simp [runList, h]
+
+theorem runList_two_of {cp : Compiler} {progs : Nat → Prog} {outc : Nat → List Rat} {args : List (String × Rat)}
+    {e e1 ea : Eng} {w w1 wa : World} {i1 i2 : Nat} {t1 t2 : List Call}
+    (h1 : runOne cp progs outc args e w i1 = .ok (e1, w1, t1))
+    (h2 : runOne cp progs outc args e1 w1 i2 = .ok (ea, wa, t2)) :
+    runList cp progs outc args e w [i1, i2] = .ok (ea, wa, t1 ++ t2) := by
+  simp [runList, h1, h2]
+
+theorem concat_ok_iff {cp : Compiler} {progs : Nat → Prog} {outc : Nat → List Rat} {args : List (String × Rat)}
+    {e : Eng} {w : World} {i1 i2 i12 : Nat} {circ1 circ2 : List Cmd}
+    (hbk : e.bk ≠ .bosonic)
+    (hc : (progs i12).circuit = (progs i1).circuit ++ (progs i2).circuit)
+    (hn : (progs i12).initN = (progs i1).initN)
+    (hir : (progs i12).initRegs = (progs i1).initRegs)
+    (hr : (progs i12).regs = (progs i2).regs)
+    (hfol : (progs i2).initRegs = (progs i1).regs)
+    (hne : i2 ≠ i1)
+    (hv : ∀ m ∈ idxs (progs i1).regs, w.vals i12 m = w.vals i1 m)
+    (hf1 : w.free i1 = w.free i12) (hf2 : w.free i2 = w.free i12)
+    (hargs : ∀ kv ∈ args, kv.1 ∈ (progs i1).freeNames ∧ kv.1 ∈ (progs i2).freeNames ∧ kv.1 ∈ (progs i12).freeNames)
+    (hd1 : decompList compileFuel cp (progs i1).circuit = .ok circ1)
+    (hd2 : decompList compileFuel cp (progs i2).circuit = .ok circ2)
+    (hsub : ∀ m ∈ idxs (progs i1).regs, m ∈ idxs (progs i2).regs)
+    (ho1 : ∀ m ∈ openDeps circ1, m ∈ idxs (progs i1).regs)
+    (ho2 : ∀ m ∈ openDeps circ2, m ∈ idxs (progs i1).regs) :
+    (∃ r, runList cp progs outc args e w [i1, i2] = .ok r) ↔ (∃ r, runList cp progs outc args e w [i12] = .ok r) := by
+  have hd12 : decompList compileFuel cp (progs i12).circuit = .ok (circ1 ++ circ2) := by
+    rw [hc, decompList_append, hd1, hd2]; rfl
+  have hsim0 : ∀ (vals0 vals0' : Nat → Option Val), (∀ m ∈ idxs (progs i1).regs, vals0 m = vals0' m) →
+      Sim (openDeps circ1 ++ idxs (progs i1).regs) { vals := vals0, mpos := e.mpos } { vals := vals0', mpos := e.mpos } :=
+    fun vals0 vals0' hvals0 => ⟨rfl, fun m hm => by
+      rcases List.mem_append.1 hm with hm | hm
+      · exact hvals0 m (ho1 m hm)
+      · exact hvals0 m hm⟩
+  obtain ⟨fb1, hfb1⟩ := bindParams_total (progs i1).freeNames (w.free i1) args (fun kv h => (hargs kv h).1)
+  obtain ⟨fb12, hfb12⟩ := bindParams_total (progs i12).freeNames (w.free i12) args (fun kv h => (hargs kv h).2.2)
+  have hfe : fb1 = fb12 := by rw [bindParams_ok hfb1, bindParams_ok hfb12, hf1]
+  subst hfe
+  constructor
+  · rintro ⟨⟨ea, wa, ta⟩, ha⟩
+    obtain ⟨e1, w1, t1, t2, h1, h2, rfl⟩ := runList_two ha
+    obtain ⟨c1, vals0, t0, free1, st1, tt1, hd1', hi1, hb1, hr1, he1, hw1, rfl⟩ := runOne_ok h1
+    obtain ⟨c2, v2, t0', free2, st2, tt2, hd2', hi2, hb2, hr2, hea, _, rfl⟩ := runOne_ok h2
+    rw [hd1] at hd1'; cases hd1'
+    rw [hd2] at hd2'; cases hd2'
+    rw [hfb1] at hb1; cases hb1
+    obtain ⟨⟨vals0', t0''⟩, hi12⟩ := (initStep_ok_iff e (progs i12) (w.vals i12)).2 (by
+      rw [hir]; exact (initStep_ok_iff e (progs i1) (w.vals i1)).1 ⟨_, hi1⟩)
+    obtain ⟨_, hvals0⟩ := initStep_agree e (progs i1) (progs i12) (w.vals i1) (w.vals i12) vals0 vals0' t0 t0''
+      (idxs (progs i1).regs) hn.symm hir.symm (fun m hm => ⟨hm, by rw [hr]; exact hsub m hm⟩)
+      (fun m hm => (hv m hm).symm) hi1 hi12
+    have hw1f : w1.free i2 = w.free i2 := by rw [hw1]; simp [setAt, hne]
+    have hfree2 : free2 = fb1 := by rw [bindParams_ok hb2, bindParams_ok hfb12, hw1f, hf2]
+    subst hfree2
+    have hprev : e1.prev = some (progs i1).regs := by rw [he1]
+    have hbk1 : e1.bk = e.bk := by rw [he1]
+    have hmp1 : e1.mpos = st1.mpos := by rw [he1]
+    have hmeas : ∀ k, e1.measured k = if hasIdx (progs i1).regs k then st1.vals k else none := by
+      intro k; rw [he1]
+    have hv2 : v2 = handOver (progs i2).regs e1.measured (w1.vals i2) := by
+      unfold initStep at hi2
+      rw [hprev] at hi2
+      simp only [hfol, if_true, Except.ok.injEq, Prod.mk.injEq] at hi2
+      exact hi2.1.symm
+    have hv2' : ∀ m, m ∈ idxs (progs i1).regs → v2 m = st1.vals m := by
+      intro m hm
+      rw [hv2]
+      simp only [handOver, (hasIdx_iff _ _).2 (hsub m hm), if_true, hmeas, (hasIdx_iff _ _).2 hm]
+    rw [runProgram_local hbk] at hr1
+    rw [hbk1, runProgram_local hbk, hmp1] at hr2
+    obtain ⟨⟨st12, tt12⟩, hr12⟩ := concat_core_fwd free2 outc circ1 circ2 _ _ _ st1 st2 v2 tt1 tt2
+      (hsim0 vals0 vals0' hvals0) hr1 (fun m hm => ⟨ho2 m hm, hv2' m (ho2 m hm)⟩) hr2
+    exact ⟨_, runList_one_of (runOne_of hd12 hi12 hfb12 (by rw [runProgram_local hbk]; exact hr12))⟩
+  · rintro ⟨⟨eb, wb, tb⟩, hb⟩
+    have h3 := runList_one hb
+    obtain ⟨circ12, vals0', t0'', free12, st12, tt12, hd12', hi12, hb12, hr12, heb, _, rfl⟩ := runOne_ok h3
+    rw [hd12] at hd12'; cases hd12'
+    rw [hfb12] at hb12; cases hb12
+    obtain ⟨⟨vals0, t0⟩, hi1⟩ := (initStep_ok_iff e (progs i1) (w.vals i1)).2 (by
+      rw [← hir]; exact (initStep_ok_iff e (progs i12) (w.vals i12)).1 ⟨_, hi12⟩)
+    obtain ⟨_, hvals0⟩ := initStep_agree e (progs i1) (progs i12) (w.vals i1) (w.vals i12) vals0 vals0' t0 t0''
+      (idxs (progs i1).regs) hn.symm hir.symm (fun m hm => ⟨hm, by rw [hr]; exact hsub m hm⟩)
+      (fun m hm => (hv m hm).symm) hi1 hi12
+    rw [runProgram_local hbk] at hr12
+    obtain ⟨st1, tt1, hr1, hnext⟩ := concat_core_bwd fb1 outc circ1 circ2 _ _ _ (st12, tt12)
+      (hsim0 vals0 vals0' hvals0) hr12
+    have h1 := runOne_of (e := e) (w := w) hd1 hi1 hfb1 (by rw [runProgram_local hbk]; exact hr1)
+    -- second segment
+    obtain ⟨fb2, hfb2⟩ := bindParams_total (progs i2).freeNames (w.free i2) args (fun kv h => (hargs kv h).2.1)
+    have hfe2 : fb2 = fb1 := by rw [bindParams_ok hfb2, bindParams_ok hfb12, hf2]
+    subst hfe2
+    obtain ⟨e1, w1, t1, h1'⟩ : ∃ e1 w1 t1, runOne cp progs outc args e w i1 = .ok (e1, w1, t1) := ⟨_, _, _, h1⟩
+    obtain ⟨c1, vals0b, t0b, free1b, st1b, tt1b, hd1', hi1', hb1', hr1', he1, hw1, _⟩ := runOne_ok h1'
+    rw [hd1] at hd1'; cases hd1'
+    rw [hi1] at hi1'; cases hi1'
+    rw [hfb1] at hb1'; cases hb1'
+    rw [runProgram_local hbk, hr1] at hr1'; cases hr1'
+    have hprev : e1.prev = some (progs i1).regs := by rw [he1]
+    have hbk1 : e1.bk = e.bk := by rw [he1]
+    have hmp1 : e1.mpos = st1.mpos := by rw [he1]
+    have hmeas : ∀ k, e1.measured k = if hasIdx (progs i1).regs k then st1.vals k else none := by
+      intro k; rw [he1]
+    have hw1f : w1.free i2 = w.free i2 := by rw [hw1]; simp [setAt, hne]
+    have hi2 : initStep e1 (progs i2) (w1.vals i2) =
+        .ok (handOver (progs i2).regs e1.measured (w1.vals i2), []) := by
+      unfold initStep; rw [hprev]; simp [hfol]
+    have hb2 : bindParams (progs i2).freeNames (w1.free i2) args = .ok fb2 := by rw [hw1f]; exact hfb2
+    obtain ⟨⟨st2, tt2⟩, hr2⟩ := hnext (handOver (progs i2).regs e1.measured (w1.vals i2)) (fun m hm => by
+      have hm1 := ho2 m hm
+      refine ⟨hm1, ?_⟩
+      simp only [handOver, (hasIdx_iff _ _).2 (hsub m hm1), if_true, hmeas, (hasIdx_iff _ _).2 hm1])
+    have h2 := runOne_of (e := e1) (w := w1) hd2 hi2 hb2 (by rw [hbk1, runProgram_local hbk, hmp1]; exact hr2)
+    exact ⟨_, runList_two_of h1' h2⟩
+
+theorem run_ok_iff (cp : Compiler) (progs : Nat → Prog) (outc : Nat → List Rat) (args : List (String × Rat))
+    (e : Eng) (w : World) (l : List Nat) :
+    (∃ r, run cp progs outc args e w l = .ok r) ↔ (∃ r, runList cp progs outc args e w l = .ok r) := by
+  unfold run
+  cases runList cp progs outc args e w l with
+  | error err => simp
+  | ok r => obtain ⟨e1, w1, t⟩ := r; simp
+
 /-! ### heap level -/
 
 theorem set_restore (l : List (List Par)) (i : Nat) (p0 z : Par) (rest : List Par)
